@@ -246,7 +246,7 @@ func stringTests(r *vrng, n int) {
 	var rec func(prefix []byte)
 	rec = func(prefix []byte) {
 		s := string(prefix)
-		record := len(prefix) <= 2 || (len(prefix) == 3 && (thorough || count%7 == 0)) || (len(prefix) == 4 && count%20 == 0)
+		record := len(prefix) <= 2 || (len(prefix) == 3 && (thorough || count%11 == 0)) || (len(prefix) == 4 && count%20 == 0)
 		count++
 		str1(s, fmt.Sprintf("alpha%d", len(prefix)), record)
 		if len(c.Blocks) > 4096 {
@@ -284,12 +284,14 @@ func stringTests(r *vrng, n int) {
 	for _, a := range salpha {
 		short = append(short, string([]byte{a}))
 	}
-	for _, a := range short {
-		for _, b := range short {
-			str2(a, b, 0, len(a), "pair1")
+	for ia, a := range short {
+		for ib, b := range short {
+			if thorough || (ia+ib)%2 == 0 {
+				str2(a, b, 0, len(a), "pair1")
+			}
 		}
 	}
-	for i := 0; i < n*3; i++ {
+	for i := 0; i < n*2; i++ {
 		a := longs[r.n(len(longs))]
 		b := longs[r.n(len(longs))]
 		switch r.n(4) {
